@@ -16,8 +16,11 @@ Proof. destruct (N.eqb_spec v 0), (Z.eqb_spec (Z.of_N v) 0); try reflexivity; li
 Lemma Z2nat_ofN' n : Z.to_nat (Z.of_N n) = N.to_nat n.
 Proof. lia. Qed.
 
+Lemma bool_item_len b : 0 <= Z.of_nat (length (bool_item b)) <= 1.
+Proof. destruct b; cbn; lia. Qed.
+
 Ltac pred_fix Hrc :=
-  rewrite ?ZofN_eqb0, ?Z2nat_ofN', ?Nat2Z.id, ?Nat2N.id, ?mem_eq in *;
+  rewrite ?ZofN_eqb0, ?Z2nat_ofN', ?Nat2Z.id, ?Nat2N.id in *; repeat rewrite mem_eq in *;
   repeat match goal with
   | E : (?v =? 0)%N = _ |- context [(?v =? 0)%N] => rewrite E
   end;
@@ -26,11 +29,26 @@ Ltac pred_fix Hrc :=
       is_var v; let Hv := fresh "Hv" in
       pose proof (Hrc st) as Hv; rewrite E in Hv; destruct v; cbn [snd runlimit] in Hv
   end;
+  repeat rewrite mem_eq;
+  repeat match goal with
+  | |- context [bool_item ?b] =>
+      lazymatch b with
+      | true => fail | false => fail
+      | _ => lazymatch goal with
+             | _ : 0 <= Z.of_nat (length (bool_item b)) <= 1 |- _ => fail
+             | _ => pose proof (bool_item_len b)
+             end
+      end
+  end;
   repeat match goal with
   | |- context [mem ?x] =>
       lazymatch goal with | _ : 0 <= mem x |- _ => fail | _ => pose proof (mem_nonneg x) end
   end;
-  cbv beta iota.
+  cbv beta iota; repeat match goal with |- context [stack_cost ?x] => rewrite (mem_eq x) end;
+  repeat match goal with
+  | |- context [mem ?x] =>
+      lazymatch goal with | _ : 0 <= mem x |- _ => fail | _ => pose proof (mem_nonneg x) end
+  end.
 
 Section Predicate.
   Variable cr : crypto.
@@ -51,6 +69,9 @@ Section Predicate.
                    end
                  | spec_step ].
     all: intros Hgas; cbn [nth tl] in Hgas; size_facts; op_run_with ltac:(pred_fix Hrc).
-    Show 6.
-  Abort.
+    all: try reflexivity.
+    all: try (exfalso; arith).
+    all: cbn [VM.dstack]; match goal with |- context [match ?d with [] => true | _ => _ end] => destruct d end;
+      rewrite ?truthy_eq, ?negb_involutive; reflexivity.
+  Qed.
 End Predicate.
